@@ -367,12 +367,29 @@ def check_C03(tier, seed):
           ("(let ((zl 1)) (let ((zl 2)) (eval (list 'defun 'zl '(a) 'a))) (list zl (zl 3)))", 'zl'), ("(defmacro define-getter (name value) (list 'defun name nil value)) (let ((answer 17)) (define-getter answer 42) (list answer (answer)))", 'answer'),
           ("(let* ((zs 1) (zt (eval (list 'defun 'zs nil 2)))) (list zs (zs)))", 'zs'), ("(if-let ((zi 5)) (progn (eval (list 'defun 'zi nil 6)) (list zi (zi))))", 'zi'),
           ("(let ((zg 1)) (eval (list 'setq 'zg 2)) (eval (list 'defun 'zg nil 3)) zg)", 'zg')]
+    rt_prescribed = {'zq': ('(17 42)', '42'), 'cb': ('(5 7)', '7'), 'dv': ('nil', '9'), 'dt': ('nil', '9'), 'ze': ('E', '1'), 'zl': ('(1 3)', '1'), 'answer': ('(17 42)', '42'), 'zs': ('(1 2)', '2'), 'zi': ('(5 6)', '6'), 'zg': ('2', '3')}
     for j, (text, var) in enumerate(rt):
         c = Case('rt%d' % j)
         c.eval(text); c.vars([var]); c.eval("(boundp '%s)" % var); c.eval(var); c.eval('(%s 1)' % var if var == 'zl' else '(%s)' % var); c.vars([var])
         c.meta = {'under': False}
         cases.append(c)
     impl, model, dis = differential(res, cases)
+    # model-free oracle for the run-time definitions: the value of the request and, afterwards, the call of the defined function
+    # as the dynamic-binding semantics prescribes them; deviations of exactly this class are the listed finding D39
+    kf_rt = 0; kf_rt_ex = None
+    for c in cases:
+        if not c.cid.startswith('rt'): continue
+        j = int(c.cid[2:]); text, var = rt[j]
+        ls = impl.get(c.cid, [])
+        if len(ls) < 5: continue
+        def val(l):
+            _, kind_, payload_, _ = core.parse_line(l); return unhx(payload_) if kind_ == 'V' else kind_
+        got = (val(ls[0]), val(ls[4]))
+        if got != rt_prescribed[var]:
+            kf_rt += 1; kf_rt_ex = kf_rt_ex or '%s => %s, then (%s) => %s; prescribed %s, then %s' % (text, got[0], var, got[1], rt_prescribed[var][0], rt_prescribed[var][1])
+    replay_known(res, 'C03')
+    classifier_hits(res, 'C03', 'c03_definition_under_temporary', kf_rt, kf_rt_ex)
+    res.cov['runtime_definition_cases'] = len(rt)
     # model-free oracle on the implementation
     byid = {c.cid: c for c in cases}
     nbad = 0
